@@ -140,7 +140,7 @@ def check(ctx, prop):
     for name in devs:
         h, r, auto = dev_schedule(ctx, d, name, mode)
         if h is None or not any(v.startswith(DEV[prop][name]) for v in r.violated):
-            raise Broken("deviation %s no longer violates a %s predicate in the model (vacuous deviation)" % (name, prop))
+            raise Broken("deviation %s does not violate a %s predicate in the model (vacuous deviation, or TLC failed):\n%s" % (name, prop, r.out[-1500:]))
         scheds.append(as_sched({"auto": auto, "steps": h}, mode)); labels.append("dev:" + name)
     ndev = len(scheds)
     # every single request (C24) / every single produce after every environment prefix (C19), enumerated by TLC
